@@ -59,10 +59,28 @@ def candidates(ob):
             yield ''.join(tup)
 
 
+def scanner_state_is_local(rep):
+    """C01 holds for every stream, also when several token streams of the (shared) lexer are consumed interleaved: the
+    scanner keeps its text and position in the generator's own frame - get_tokens and the methods it calls on the lexer
+    store nothing on the lexer object (frame obligation over the real AST)"""
+    from pyvc import effects
+    fns = effects.all_functions()
+    for q, node in sorted(fns.items()):
+        if not (q.startswith('sqlparse.lexer.Lexer.') and '<locals>' not in q):
+            continue
+        name = q.rsplit('.', 1)[1]
+        if name in ('__init__', 'clear', 'default_initialization', 'set_SQL_REGEX', 'add_keywords', 'get_default_instance'):
+            continue        # the configuration API (its effect on later calls is C20's subject)
+        ws = [w.as_dict() for w in effects.writes_of(q, node) if w.base in ('self', 'cls')]
+        common.structural(rep, 'C01/%s/keeps no scanning state on the lexer object (interleaved streams are independent)' % q,
+                          q, not ws, {'writes': ws})
+
+
 def run(rep):
     common.verify_functions(rep, [(GET_TOKENS, 'text is str'), ('sqlparse.utils.consume', None),
                                   ('sqlparse.lexer.Lexer.is_keyword', 'full')])
     table_obligations(rep)
+    scanner_state_is_local(rep)
     common.run_bounded(rep, 'C01', rep.tier, rep.seed)
     common.attach_replay(rep, 'C01', candidates)
     rep.assumptions += ['re.Pattern.match(text, pos) returns None or a match m with pos <= m.end() <= len(text), '
